@@ -390,6 +390,8 @@ def run(ctx, chk, tier="quick"):
                        "a rain mask has one element per time step, a jump mask one per increment (np.diff)"]
     from ..sqlrules import conflict_clauses as _conflict_clauses
     _conflict_clauses(ctx, chk, "C03.O6", ("classify",), "classify", 'a second classification with other thresholds keeps storms and rises of the first run that are not runs under the stored thresholds')
+    from .c04 import record_read_whole
+    record_read_whole(ctx, chk, "C03.O1")
     from ..sqlrules import lossy_functions
     lossy_functions(ctx, chk, "C03.O1", ("classify",), "classify", "thresholds are compared with the stored intensities and levels, not with rounded ones")
     roles = threshold_roles(ctx)
@@ -531,6 +533,9 @@ def run(ctx, chk, tier="quick"):
                     continue
                 if isinstance(n.ops[0], (ast.Is, ast.IsNot)):
                     continue          # `thr is None`: whether it was given, not a comparison of values
+                other_ = l if side == "right" else r
+                if isinstance(other_, ast.Constant) or (isinstance(other_, ast.UnaryOp) and isinstance(other_.operand, ast.Constant)):
+                    continue          # `thr > 0`: a validation of the argument, not a predicate on the series
                 n_cmp += 1
                 op = type(n.ops[0])
                 # normalised with the threshold on the right
